@@ -218,6 +218,29 @@ def fam_multi(rnd, n):
     return res
 
 
+def fam_multi_tol(rnd, n):
+    """Several plans at once on one Workstream, each with its own failing sequences and its own tolerance:
+    what one plan's block counts and decides must not depend on the failures of the others. Every plan has
+    its own outcome script (keys "<plan>#<action>"); slow first actions keep the blocks overlapping."""
+    res = []
+    for i in range(n):
+        ns = rnd.choice([3, 4, 5])
+        tol = rnd.choice([0, 1, 1, 2])
+        conc = rnd.choice([1, 1, 2])
+        sh = shape([blk([1] * ns, conc, tol)], retries=0)
+        npl = rnd.choice([2, 3])
+        out, lat = {}, {}
+        for pl in range(npl):
+            # exactly tol failures (the block must go on and complete), tol + 1 (must stop and fail), or none
+            nfail = rnd.choice([0, tol, tol, tol + 1, tol + 1])
+            for q in rnd.sample(range(1, ns + 1), min(nfail, ns)):
+                out["%d#b1.s%d.a1" % (pl, q)] = ["perm"]
+            for q in range(1, ns + 1):
+                lat["%d#b1.s%d.a1" % (pl, q)] = [rnd.choice([300, 1500, 4000])]
+        res.append(scn(sh, "free", out, lat=lat, nplans=npl, tag="multi-tol", waitms=6000))
+    return res
+
+
 def fam_poll(rnd, n):
     """Plans run under a polling reader and a slow store (persist-before-act, monotone reads)."""
     res = []
@@ -290,6 +313,33 @@ def fam_crash(rnd, n, crashmax=14, double=0, fn=True, flip=False):
                 o2[a] = ["ok"] if out.get(a, ["ok"])[0] != "ok" else ["perm"]
                 extra["out2"] = o2
         res.append(scn(sh, "free", out, crash="sample", crashmax=crashmax, crash2max=double, fn=fn, tag="crash-" + kind + ("-flip" if flip else ""), latmax=100, contdelay=300, waitms=5000, **extra))
+    return res
+
+
+def fam_crash_order(rnd, n, crashmax=16):
+    """Crash points of plans whose block fails with blocks still behind it: the gate between blocks (and the
+    verdict of the plan) must also hold in the process that resumes the plan. Deferred checks at plan and block
+    level widen the window between the failure becoming durable and the final plan write."""
+    res = []
+    for i in range(n):
+        nb = rnd.choice([2, 3])
+        fb = rnd.randint(1, nb - 1)            # the failing block, never the last one
+        pg = {"deferred": 1} if rnd.random() < 0.8 else {}
+        blocks, out = [], {}
+        for b in range(1, nb + 1):
+            g = {}
+            if b == fb and rnd.random() < 0.4:
+                g["deferred"] = 1
+            if b == fb and rnd.random() < 0.3:
+                g["post"] = 1
+            blocks.append(blk([rnd.choice([1, 2])], 1, 0, g=g))
+        how = rnd.choice(["act", "act", "post"]) if "post" in blocks[fb - 1]["g"] else "act"
+        if how == "act":
+            out["b%d.s1.a%d" % (fb, rnd.randint(1, blocks[fb - 1]["seqs"][0]))] = ["perm"]
+        else:
+            out["b%d.post.a1" % fb] = ["perm"]
+        sh = shape(blocks, pg=pg, retries=0)
+        res.append(scn(sh, "free", out, crash="sample", crashmax=crashmax, crash2max=0, fn=True, tag="crash-order", latmax=100, contdelay=300, waitms=5000))
     return res
 
 
